@@ -13,6 +13,7 @@ v-once bookkeeping starts empty in every render (evaluatePage, C16).
 -/
 import Vuego.Model.Eval
 import Vuego.Generated.Purity
+import Vuego.Generated.Parse
 import Vuego.Props.C15
 namespace Vuego.Props.C10
 open Go Vuego
@@ -126,7 +127,53 @@ theorem render_function_of_inputs {C : Type} (parse : C → Option (List Node)) 
 theorem seen_starts_empty (W : World) (fuel : Nat) (file : Str) (dom : List Node) (stack : Stack) :
     evaluatePage W fuel file dom stack = evalList W fuel { slots := [], chain := [file] } { stack := stack, seen := [] } (resolveTagsList W.comps dom) := rfl
 
+/-! ## the compiled-expression cache
+
+`ExprEvaluator.programs` memoises compilation. A memo table in front of a function OF ITS KEY ALONE is invisible: after any sequence of
+earlier lookups a lookup returns what computing afresh returns. The source facts say the table is of that kind: the key of every store is
+the function's only parameter, and the compilation reads nothing else (in particular not the environment of the evaluation at hand). -/
+
+def memoStep {K V : Type} [BEq K] (f : K → V) (tbl : List (K × V)) (k : K) : List (K × V) × V :=
+  match tbl.lookup k with
+  | some v => (tbl, v)
+  | none => ((k, f k) :: tbl, f k)
+
+def MemoInv {K V : Type} [BEq K] (f : K → V) (tbl : List (K × V)) : Prop := ∀ k v, tbl.lookup k = some v → v = f k
+
+theorem memoStep_sound {K V : Type} [BEq K] [LawfulBEq K] (f : K → V) (tbl : List (K × V)) (k : K) (h : MemoInv f tbl) :
+    (memoStep f tbl k).2 = f k ∧ MemoInv f (memoStep f tbl k).1 := by
+  unfold memoStep
+  cases hl : tbl.lookup k with
+  | some v => exact ⟨h k v hl, h⟩
+  | none =>
+    refine ⟨rfl, ?_⟩
+    intro k' v' hk'
+    simp only [List.lookup] at hk'
+    cases hb : k' == k with
+    | true =>
+      simp only [hb] at hk'
+      have : k' = k := by simpa using hb
+      subst this
+      exact (Option.some.inj hk').symm
+    | false =>
+      simp only [hb] at hk'
+      exact h k' v' hk'
+
+/-- whatever was evaluated before (any list of earlier keys), the cache answers like a fresh compilation -/
+theorem memo_invisible {K V : Type} [BEq K] [LawfulBEq K] (f : K → V) :
+    ∀ (earlier : List K) (tbl : List (K × V)), MemoInv f tbl → ∀ k, (memoStep f (earlier.foldl (fun t e => (memoStep f t e).1) tbl) k).2 = f k
+  | [], tbl, h, k => (memoStep_sound f tbl k h).1
+  | e :: r, tbl, h, k => by
+    simp only [List.foldl_cons]
+    exact memo_invisible f r _ (memoStep_sound f tbl e h).2 k
+
+/-- the source's program cache is of that kind: stores are keyed by the only parameter, and the compilation reads only that parameter -/
+theorem source_program_cache_keyed_by_all_inputs :
+    Generated.programCacheKeys = Generated.programParams ∧ Generated.programCompileReads = Generated.programParams
+      ∧ Generated.programParams = ["expression"] := by decide
+
 /-! non-vacuity -/
+example : (memoStep (fun n : Nat => n * 2) [(3, 6)] 3).2 = 6 ∧ (memoStep (fun n : Nat => n * 2) [(3, 6)] 4).2 = 8 := by decide
 example : runPool true [] [.put [(['a'], .nil)], .put [(['b'], .nil)], .get 1, .get 0, .get 7] = [[], [], []] := by rfl
 
 end Vuego.Props.C10
